@@ -1261,6 +1261,10 @@ impl FilterComp {
             }
             ScimFilter::Greater(ScimAttrPath { a, s: None }, json_value) => {
                 let pv = qs.resolve_scim_json_get(a, json_value)?;
+                if !scim_ordering_supported(&pv) {
+                    error!("Unsupported filter operation - ordering on an unordered type");
+                    return Err(OperationError::FilterGeneration);
+                }
                 // Greater is equivalent to "not equal or less than".
                 FilterComp::And(vec![
                     FilterComp::Pres(a.clone()),
@@ -1272,10 +1276,18 @@ impl FilterComp {
             }
             ScimFilter::Less(ScimAttrPath { a, s: None }, json_value) => {
                 let pv = qs.resolve_scim_json_get(a, json_value)?;
+                if !scim_ordering_supported(&pv) {
+                    error!("Unsupported filter operation - ordering on an unordered type");
+                    return Err(OperationError::FilterGeneration);
+                }
                 FilterComp::LessThan(a.clone(), pv)
             }
             ScimFilter::GreaterOrEqual(ScimAttrPath { a, s: None }, json_value) => {
                 let pv = qs.resolve_scim_json_get(a, json_value)?;
+                if !scim_ordering_supported(&pv) {
+                    error!("Unsupported filter operation - ordering on an unordered type");
+                    return Err(OperationError::FilterGeneration);
+                }
                 // Greater or equal is equivalent to "not less than".
                 FilterComp::And(vec![
                     FilterComp::Pres(a.clone()),
@@ -1284,6 +1296,10 @@ impl FilterComp {
             }
             ScimFilter::LessOrEqual(ScimAttrPath { a, s: None }, json_value) => {
                 let pv = qs.resolve_scim_json_get(a, json_value)?;
+                if !scim_ordering_supported(&pv) {
+                    error!("Unsupported filter operation - ordering on an unordered type");
+                    return Err(OperationError::FilterGeneration);
+                }
                 FilterComp::Or(vec![
                     FilterComp::LessThan(a.clone(), pv.clone()),
                     FilterComp::Eq(a.clone(), pv),
@@ -1326,6 +1342,23 @@ impl FilterComp {
             }
         })
     }
+}
+
+/// Ordering comparisons are only defined for value types that have an ordering. For any
+/// other type (strings, booleans ...) a less-than term never matches, which made
+/// `gt`/`ge` silently mean "present and not equal" and `lt` match nothing. Reject these
+/// as unsupported instead of answering with the wrong entries.
+fn scim_ordering_supported(pv: &PartialValue) -> bool {
+    matches!(
+        pv,
+        PartialValue::Uint32(_)
+            | PartialValue::Int64(_)
+            | PartialValue::Uint64(_)
+            | PartialValue::Cid(_)
+            | PartialValue::DateTime(_)
+            | PartialValue::Uuid(_)
+            | PartialValue::Refer(_)
+    )
 }
 
 /* We only configure partial eq if cfg test on the invalid/valid types */
